@@ -994,8 +994,11 @@ func newAddrExpr(args []*internal.Elem) *ast.UnaryExpr {
 }
 
 func zeroCompositeLit(p *Package, typ types.Type, typ0 *types.Type) *ast.CompositeLit {
+	// the literal is written with the type as requested (*typ0), not with its underlying type
+	// typ: the zero value of a named struct or array type is T{}, and a struct type of another
+	// package with unexported fields cannot be spelled out at all
 	return &ast.CompositeLit{
-		Type: toType(p, typ),
+		Type: toType(p, *typ0),
 	}
 }
 
